@@ -176,7 +176,7 @@ Definition swath_angles (n : nat) (len : Z) : list (list (list Q)) :=
   let zero := map (fun _ => 0) (zrange len) in
   [ map (fun _ => row) (seq 0 n); map (fun _ => zero) (seq 0 n) ].
 Definition swath_times (n : nat) (len : Z) : list (list Z) :=
-  map (fun _ => map (fun _ => 0%Z) (zrange len)) (seq 0 n).
+  let zero := map (fun _ => 0%Z) (zrange len) in map (fun _ => zero) (seq 0 n).
 
 (* ---------- evaluation with sharing (used by the correspondence run; proved equal to the
    definitions above in P_Instruments.v) ---------- *)
